@@ -52,7 +52,7 @@ var schemaFields = map[string][]fdef{
 	"Mutation": {{"touchA", "A", false, "i"}, {"touchP", "P", false, "i"}},
 	"P":        {{"n", "Int", false, ""}, {"a", "A", false, ""}},
 	"D":        {{"id", "Int", false, ""}, {"tags", "String", true, ""}, {"v", "Int", false, ""}},
-	"A":        {{"id", "Int", false, ""}, {"name", "String", false, ""}, {"tag", "String", false, "x"}, {"score", "Int", false, ""}, {"b", "B", false, ""}, {"bs", "B", true, ""}, {"u", "U", false, ""}, {"nb", "B", false, ""}},
+	"A":        {{"id", "Int", false, ""}, {"name", "String", false, ""}, {"tag", "String", false, "x"}, {"score", "Int", false, ""}, {"b", "B", false, ""}, {"bs", "B", true, ""}, {"u", "U", false, ""}, {"nb", "B", false, ""}, {"grid", "B", true, ""}},
 	"B":        {{"id", "Int", false, ""}, {"val", "Int", false, ""}, {"a", "A", false, ""}, {"cs", "C", true, ""}, {"label", "String", false, "p"}},
 	"C":        {{"id", "Int", false, ""}, {"w", "Int", false, ""}},
 	"F":        {{"id", "Int", false, ""}, {"tags", "String", true, ""}},
@@ -78,6 +78,9 @@ type gen struct {
 	inDef  int  // > 0 while the body of a named fragment is being generated
 	// argVars: some arguments are passed through declared variables (provided,
 	// defaulted, or explicitly null); varDecls / varVals collect them
+	rootTN     bool // __typename may be selected on the query root too
+	grid       bool // select the list-of-lists field A.grid
+	unionFrags bool // fragments whose type condition is the union type itself
 	argVars  bool
 	varDecls []string
 	varVals  map[string]interface{}
@@ -123,7 +126,7 @@ func (g *gen) genSet(typ string, depth int) *qset {
 				continue
 			}
 		case 4:
-			if typ != "Query" {
+			if typ != "Query" || g.rootTN {
 				set.sels = append(set.sels, &qsel{name: "__typename", alias: []string{"", "tn"}[g.c.Choose(2, "tn-alias")]})
 				continue
 			}
@@ -230,6 +233,9 @@ func (g *gen) genSelWith(typ string, depth int, plain bool) *qsel {
 		if !g.bs2 && f.name == "bs2" {
 			f = fields[0]
 		}
+		if !g.grid && f.name == "grid" {
+			f = fields[0]
+		}
 		if !isObj(f.typ) || depth < 4 || tries > 8 {
 			break
 		}
@@ -281,6 +287,22 @@ func (g *gen) genSelWith(typ string, depth int, plain bool) *qsel {
 }
 
 func (g *gen) genUnionSet(depth int) *qset {
+	if g.unionFrags && depth < 4 && g.c.Choose(4, "fragment-on-union-type") == 1 {
+		// the member fragments arrive inside a fragment on the union type itself
+		// (what Relay-style clients generate)
+		g.c.Probe("fragment-on-union-type")
+		inner := g.genUnionSetInner(depth + 1)
+		outer := &qset{}
+		if g.c.Choose(2, "union-fragment-plus-direct") == 1 {
+			outer = g.genUnionSetInner(depth + 1)
+		}
+		outer.frags = append(outer.frags, &qfrag{on: "U", set: inner})
+		return outer
+	}
+	return g.genUnionSetInner(depth)
+}
+
+func (g *gen) genUnionSetInner(depth int) *qset {
 	set := &qset{}
 	if g.c.Choose(3, "union-typename") == 1 {
 		set.sels = append(set.sels, &qsel{name: "__typename"})
@@ -692,6 +714,27 @@ func (e *evaluator) field(typ string, id int64, s *qsel, merged []*qsel, unionSe
 		return one("B", w.aB[id-100])
 	case "A.bs":
 		return list("B", w.aBs[id-100])
+	case "A.grid":
+		// rows: the bs list, a nil row, the bs list again in reverse, an empty row
+		l := w.aBs[id-100]
+		rev := make([]int, len(l))
+		for i, x := range l {
+			rev[len(l)-1-i] = x
+		}
+		out := []interface{}{}
+		for r, row := range [][]int{l, nil, rev, {}} {
+			cells := []interface{}{}
+			for i, idx := range row {
+				o := objOf("B", idx)
+				if o == nil {
+					cells = append(cells, nil)
+					continue
+				}
+				cells = append(cells, o.(func([]string) interface{})(path(p, fmt.Sprint(r), fmt.Sprint(i))))
+			}
+			out = append(out, cells)
+		}
+		return out
 	case "A.u":
 		if w.badU[id] && w.aU[id-100].typ != "" {
 			e.fails = append(e.fails, failRec{path: p, field: logical, id: failID, f: failure{kind: 6}})
@@ -717,6 +760,16 @@ func (e *evaluator) field(typ string, id int64, s *qsel, merged []*qsel, unionSe
 func (e *evaluator) union(r ref, sets []*qset, p []string) interface{} {
 	if r.typ == "" {
 		return nil
+	}
+	// a fragment on the union type itself contributes its own member fragments
+	// and union-level selections
+	sets = append([]*qset{}, sets...)
+	for i := 0; i < len(sets); i++ {
+		for _, f := range sets[i].frags {
+			if f.on == "U" && !f.skip {
+				sets = append(sets, f.set)
+			}
+		}
 	}
 	var sels []*qsel
 	applicable := false
